@@ -11,7 +11,7 @@
 //! read-only and compared with the double's object map at the state's
 //! (session, serial).
 
-use std::collections::{BTreeMap, BTreeSet};
+use std::collections::BTreeMap;
 use std::path::PathBuf;
 use std::str::FromStr;
 use std::sync::{Arc, Mutex};
@@ -41,9 +41,11 @@ pub struct Rig {
 }
 
 /// A trust anchor CA certificate with the given rpkiNotify (or none).
-pub fn ca_cert(factory: &Factory, repo: &str, notify: Option<String>) -> Arc<CaCert> {
+pub fn ca_cert(factory: &Factory, repo: &str, notify: Option<String>) -> Arc<CaCert> { ca_cert_with_key(factory, repo, notify, 0) }
+
+pub fn ca_cert_with_key(factory: &Factory, repo: &str, notify: Option<String>, key: usize) -> Arc<CaCert> {
     let spec = CaCertSpec {
-        key: 0, issuer_key: None, serial: 1, validity: (-24, 24 * 30), repo: repo.to_string(),
+        key, issuer_key: None, serial: 1, validity: (-24, 24 * 30), repo: repo.to_string(),
         manifest: format!("{repo}ca.mft"), notify, crl_uri: None, ca_issuer: None,
         prefixes: vec!["10.0.0.0/8".into()], asns: vec![(64000, 65000)],
         inherit: false, overclaim_trim: false, forged: false,
@@ -326,6 +328,8 @@ fn c25_one(w: &mut Worker, b: &Value, idx: usize) {
     let runs = b["runs"].as_array().unwrap();
     let mut any_fault = false;
     let mut fault_names_all: Vec<String> = Vec::new();
+    // did a run that was not reported successful rewrite (session, serial) of the state record?
+    let mut failed_run_moved_state = false;
     for (ri, r) in runs.iter().enumerate() {
         // --- server steps
         for step in r["env"].as_array().unwrap() {
@@ -386,11 +390,12 @@ fn c25_one(w: &mut Worker, b: &Value, idx: usize) {
         if obs.updated {
             // was the archive already something else than what its state record says?
             let dirty_before = before.as_ref().map(|l| !srv.objects_at(l.session, l.serial).iter().any(|o| *o == l.objects)).unwrap_or(false);
-            let dirty = if dirty_before { "dirty-archive-then-" } else { "" };
+            let dirty = if dirty_before && failed_run_moved_state { "dirty-archive-restamped-then-" }
+                        else if dirty_before { "dirty-archive-then-" } else { "" };
             let shape = if obs.notify_status == 304 { format!("{dirty}304") }
                 else if !obs.requests.iter().any(|q| !matches!(q.kind, ReqKind::Notify)) { format!("{dirty}same-serial") }
                 else if obs.requests.iter().any(|q| matches!(q.kind, ReqKind::Snapshot(_))) { format!("{dirty}snapshot") }
-                else if plan["list"]["k"] != "ok" { format!("{dirty}delta-list-{}", plan["list"]["k"].as_str().unwrap()) }
+                else if plan["list"]["k"] != "ok" && !dirty_before { format!("delta-list-{}", plan["list"]["k"].as_str().unwrap()) }
                 else { format!("{dirty}deltas") };
             match &after {
                 None => w.rep.violation(C25, &format!("rrdp/updated-without-copy/{shape}"),
@@ -421,6 +426,10 @@ fn c25_one(w: &mut Worker, b: &Value, idx: usize) {
             w.rep.violation(C25, "rrdp/failed-update-used", "the update failed, yet a repository was handed to the validation (rsync is disabled)",
                 ctx(), observed.clone());
         }
+        if !obs.updated {
+            let key = |l: &Option<LocalCopy>| l.as_ref().map(|l| (l.session, l.serial));
+            if key(&before) != key(&after) && before.is_some() { failed_run_moved_state = true; }
+        }
         // ---- model conformance (not an alarm)
         let exp = &r["exp"];
         let exp_updated = exp["result"] == "Updated";
@@ -428,7 +437,12 @@ fn c25_one(w: &mut Worker, b: &Value, idx: usize) {
             Some((exp["serial"].as_u64().unwrap(), objects_of(&base, &exp["objs"])))
         } else { None };
         let got_local = after.as_ref().map(|l| (l.serial, l.objects.clone()));
-        if exp_updated != obs.updated || exp_local != got_local {
+        // an abandoned update may leave altered bytes behind: compare names only in that case
+        let same = if obs.updated { exp_local == got_local } else {
+            exp_local.as_ref().map(|(s, o)| (*s, o.keys().cloned().collect::<Vec<_>>()))
+                == got_local.as_ref().map(|(s, o)| (*s, o.keys().cloned().collect::<Vec<_>>()))
+        };
+        if exp_updated != obs.updated || !same {
             w.rep.divergence(C25, format!("behaviour {idx} run {ri}: model expects {} / {:?}, code gives updated={} / {} (faults {:?}, requests {:?})",
                 exp["result"], exp_local.as_ref().map(|(s, o)| (s, o.keys().map(|k| k.strip_prefix(&base).unwrap().to_string()).collect::<Vec<_>>())),
                 obs.updated, local_json(&after, &base), fault_names, reqs));
@@ -731,6 +745,8 @@ struct FbCase {
     row: Value,
     rig: Rig,
     ca: Arc<CaCert>,
+    /// A second CA in the same repository (thorough tier).
+    ca2: Option<Arc<CaCert>>,
     cfg: Config,
     ok: bool,
 }
@@ -748,6 +764,9 @@ fn c29_main(args: &Args) -> i32 {
         let outcome = row["outcome"].as_str().unwrap().to_string();
         let notify = row["notify"].as_bool().unwrap();
         let ca = if notify { rig.ca.clone() } else { ca_cert(&factory, &base, None) };
+        let ca2 = if args.thorough() {
+            Some(ca_cert_with_key(&factory, &base, if notify { Some(rig.srv.notify_uri()) } else { None }, 1))
+        } else { None };
         // something for rsync to fetch
         let mut published = Published::default();
         published.files.insert(format!("{base}ca.mft"), Bytes::from_static(b"not a manifest"));
@@ -775,7 +794,7 @@ fn c29_main(args: &Args) -> i32 {
                 _ => ok = false,
             }
         }
-        cases.push(FbCase { row: row.clone(), rig, ca, cfg, ok });
+        cases.push(FbCase { row: row.clone(), rig, ca, ca2, cfg, ok });
     }
     // --- phase 2: let the copies of the "stale" rows expire (best-before = update + 1..2 s)
     std::thread::sleep(std::time::Duration::from_millis(3300));
@@ -853,6 +872,39 @@ fn c29_case(case: &FbCase) -> Report {
             row.clone(), observed.clone());
     }
     if notify && rrdp_on && outcome != "updated" { rep.sample(C29, json!({"row": row, "observed": observed})); }
+    // thorough: a second run in which two CAs of the same repository are looked up by two threads at once
+    if let Some(ca2) = case.ca2.as_ref() {
+        if outcome != "updated" {
+            rig.srv.set_faults(FaultPlan { notify_status: Some(500), ..Default::default() });
+        }
+        let run = collector.start();
+        let decide = |ca: &Arc<CaCert>| -> &'static str {
+            match run.repository(ca) {
+                Ok(Some(r)) if r.is_rrdp() => "rrdp", Ok(Some(_)) => "rsync", Ok(None) => "none", Err(_) => "failed",
+            }
+        };
+        let (d1, d2) = std::thread::scope(|s| {
+            let t1 = s.spawn(|| decide(&case.ca));
+            let t2 = s.spawn(|| decide(ca2));
+            (t1.join().unwrap_or("panic"), t2.join().unwrap_or("panic"))
+        });
+        drop(run);
+        let rsync_log = rig.bed.take_rsync_log();
+        let http_log = rig.srv.take_log();
+        rig.srv.clear_faults();
+        let fetches = rsync_log.iter().filter(|l| l.starts_with(&module)).count();
+        let notifies = http_log.iter().filter(|q| matches!(q.kind, ReqKind::Notify)).count();
+        let observed = json!({"decisions": [d1, d2], "rsync_fetches": fetches, "notification_requests": notifies});
+        rep.eval(C29);
+        rep.nontrivial(C29, format!("{sig}/two-cas"));
+        if d1 != expected || d2 != expected {
+            rep.violation(C29, &format!("{sig}/two-cas"), format!("documented decision {expected}, two CAs of the repository get {d1} and {d2}"),
+                row.clone(), observed);
+        }
+        else if fetches > 1 || notifies > 1 {
+            rep.divergence(C29, format!("row {row}: two CAs of one repository caused {fetches} rsync fetches and {notifies} notification requests"));
+        }
+    }
     rep
 }
 
@@ -868,6 +920,3 @@ pub fn main(args: &Args) -> i32 {
         other => { eprintln!("vh rrdp: unknown mode {other}"); 2 }
     }
 }
-
-#[allow(dead_code)]
-fn unused(_: BTreeSet<String>) {}
